@@ -182,6 +182,15 @@ class Job:
                 self.record(name, "error", 0.0, bound, str(ex))
                 return "error"
             self.solver_s += r.seconds
+            if r.verdict == "unknown" and replay is None and expect in ("sat", "info"):
+                # a reachability witness the solver could not produce in time: a point at which the path condition evaluates
+                # to true in floating point (the same terms, true exp / ln) shows the harness is not vacuous.  It is evidence
+                # of reachability only and is recorded as such.
+                r2 = LW.search_model(list(conds) + extra, seed=self.seed, time_s=10.0)
+                if r2.verdict == "sat":
+                    r2.seconds += r.seconds
+                    note = (note + "; " if note else "") + "witness from numeric evaluation of the path condition at a sampled point (z3 undecided)"
+                    r = r2
             if expect == "info":
                 # an obligation the solver is not expected to settle (recorded as undecided when it does not).  If it is not
                 # unsat and a replay is given, the replay's concrete family is run on the real code: a reproduced failure is a
